@@ -771,7 +771,118 @@ def fold_constants(tree):
                     and isinstance(getattr(node.left, "ctx", ast.Load()), ast.Load):
                 return ast.copy_location(ast.Tuple(elts=list(node.left.elts) + list(node.right.elts), ctx=ast.Load()), node)
             return node
+
+        def visit_UnaryOp(self, node):
+            self.generic_visit(node)
+            if isinstance(node.op, ast.Not) and isinstance(node.operand, ast.Constant) \
+                    and isinstance(node.operand.value, bool):
+                return ast.copy_location(ast.Constant(value=not node.operand.value), node)
+            return node
+
+        def visit_BoolOp(self, node):
+            self.generic_visit(node)
+            is_and = isinstance(node.op, ast.And)
+            vals = []
+            for v in node.values:
+                if isinstance(v, ast.Constant) and isinstance(v.value, bool):
+                    if v.value == is_and:
+                        continue                # neutral element
+                    if v is node.values[0] or not vals:
+                        return ast.copy_location(ast.Constant(value=v.value), node)     # decided by a leading constant
+                    vals.append(v)
+                    break                       # nothing after an absorbing constant is evaluated
+                vals.append(v)
+            if not vals:
+                return ast.copy_location(ast.Constant(value=is_and), node)
+            if len(vals) == 1:
+                return vals[0]
+            node.values = vals
+            return node
     F().visit(tree)
+
+
+def _row_ok(e):
+    if isinstance(e, (ast.Constant, ast.Name)):
+        return True
+    if isinstance(e, ast.Attribute):
+        return _chain(e) is not None
+    if isinstance(e, (ast.Tuple, ast.List)):
+        return all(_row_ok(x) for x in e.elts)
+    return False
+
+
+def unroll_new_table_loops(fn, keep=()):
+    """`for a, b in ((x1, y1), (x2, y2), ..): body` over a literal table, with loop variables that did
+    not exist at baseline, becomes the bodies in sequence with the variables replaced by the row's
+    entries - the if-chain the table was made from.  The table may be written in place or be a local
+    assigned once (a new one) just for the loop."""
+    lits = {}
+    stores = {}
+    for n in _own_walk(fn):
+        if isinstance(n, ast.Name) and isinstance(n.ctx, (ast.Store, ast.Del)):
+            stores[n.id] = stores.get(n.id, 0) + 1
+    for n in _own_walk(fn):
+        if isinstance(n, ast.Assign) and len(n.targets) == 1 and isinstance(n.targets[0], ast.Name) \
+                and isinstance(n.value, (ast.Tuple, ast.List)) and stores.get(n.targets[0].id) == 1 \
+                and n.targets[0].id not in keep:
+            lits[n.targets[0].id] = n.value
+    done = 0
+
+    def process(block):
+        nonlocal done
+        i = 0
+        while i < len(block):
+            st = block[i]
+            if isinstance(st, ast.For) and not st.orelse:
+                it = st.iter
+                if isinstance(it, ast.Name) and it.id in lits:
+                    it = lits[it.id]
+                tg = st.target
+                names = [tg.id] if isinstance(tg, ast.Name) else \
+                    [x.id for x in tg.elts] if isinstance(tg, ast.Tuple) and all(isinstance(x, ast.Name) for x in tg.elts) else None
+                ok = names is not None and isinstance(it, (ast.Tuple, ast.List)) and 0 < len(it.elts) <= 40 \
+                    and not any(nm in keep for nm in names) and all(stores.get(nm) == 1 for nm in names) \
+                    and not any(isinstance(x, (ast.Break, ast.Continue)) for b_ in st.body for x in ast.walk(b_)) \
+                    and all(_row_ok(el) for el in it.elts) \
+                    and (isinstance(tg, ast.Name) or all(isinstance(el, (ast.Tuple, ast.List)) and len(el.elts) == len(names)
+                                                         for el in it.elts))
+                if ok:
+                    # the loop variables must not be read after the loop
+                    later = [x for s_ in block[i + 1:] for x in ast.walk(s_)
+                             if isinstance(x, ast.Name) and x.id in names]
+                    if later:
+                        ok = False
+                if ok:
+                    new = []
+                    for el in it.elts:
+                        mapping = {names[0]: el} if isinstance(tg, ast.Name) else dict(zip(names, el.elts))
+                        for b_ in st.body:
+                            c_ = copy.deepcopy(b_)
+                            c_ = _Subst({k: v for k, v in mapping.items()}).visit(c_)
+                            for x in ast.walk(c_):
+                                ast.copy_location(x, st)
+                            new.append(c_)
+                    block[i:i + 1] = new
+                    done += 1
+                    i += len(new)
+                    continue
+            if not isinstance(st, (ast.FunctionDef, ast.AsyncFunctionDef, ast.ClassDef)):
+                for field in ("body", "orelse", "finalbody"):
+                    b = getattr(st, field, None)
+                    if isinstance(b, list) and b and isinstance(b[0], ast.stmt):
+                        process(b)
+                for h in getattr(st, "handlers", []) or []:
+                    process(h.body)
+            i += 1
+    process(fn.body)
+    if done:
+        # a table local that fed only the loop is gone with it
+        for nm in list(lits):
+            if not any(isinstance(x, ast.Name) and x.id == nm and isinstance(x.ctx, ast.Load) for x in _own_walk(fn)):
+                fn.body[:] = [s for s in fn.body if not (isinstance(s, ast.Assign) and len(s.targets) == 1
+                                                        and isinstance(s.targets[0], ast.Name) and s.targets[0].id == nm)]
+        ast.fix_missing_locations(fn)
+    return done
 
 
 def local_names(fn):
@@ -806,6 +917,11 @@ def normalize_module(tree, module_name, sigs=None):
     for n in tree.body:
         if isinstance(n, ast.ClassDef):
             classes[n.name] = {c.name: c for c in n.body if isinstance(c, ast.FunctionDef)}
+    for cname, fns in list(classes.items()) + [(None, top)]:
+        for name, fdef in fns.items():
+            q = "%s:%s.%s" % (module_name, cname, name) if cname else "%s:%s" % (module_name, name)
+            if q in base:
+                n_inl += unroll_new_table_loops(fdef, keep=set(base.get(q, ())))
     for cname, fns in list(classes.items()) + [(None, top)]:
         for name, fdef in fns.items():
             q = "%s:%s.%s" % (module_name, cname, name) if cname else "%s:%s" % (module_name, name)
